@@ -168,7 +168,7 @@ def _dead_top_imports(text):
 class C04(Prop):
     id = "C04"
     driver = "Blocks"
-    lean_modules = ["Pfb.C04.Props", "Pfb.C04.NoUnusedLeft", "Pfb.C04.KeepsMissing"]
+    lean_modules = ["Pfb.C04.Props", "Pfb.C04.NoUnusedLeft", "Pfb.C04.KeepsMissing", "Pfb.C04.NoUnusedLeftC"]
     theorems = [
         "Pfb.C04.C04_never_guesses",
         "Pfb.C04.C04_unique_added",
@@ -190,6 +190,12 @@ class C04(Prop):
         "Pfb.C04.C04_tidy_remove_stage_safe_fragB",
         "Pfb.C04.keeps_missing_core",
         "Pfb.C04.witness_builtins_value",
+        # fragment C (function bodies, deferred loads): the full statement is FALSE of model and code (listed finding D69 of C03:
+        # decide-proved negation witness_deferred_names_fragC, replayed on the real tool); proved under `rebindOK`
+        "Pfb.C04.C04_no_unused_left_fragC_partial",
+        "Pfb.C04.C04_no_unused_left_fragC_noDeferredNames",
+        "Pfb.C04.witness_deferred_names_fragC",
+        "Pfb.C04.witness_unlocated_after_def",
     ]
     anchors = [
         ("lib/python/pyflyby/_imports2s.py", "fix_unused_and_missing_imports"),
